@@ -206,6 +206,14 @@ def run(ctx):
         if i % 3 == 0:
             check_conversions(ctx, gen.rand_dfa_def(rng, alphabet=sigma))
             check_conversions(ctx, gen.rand_dfa_with_dead(rng, alphabet=sigma))
+    # two sparse partial operands over three symbols: at most pairs of states the two sets of defined symbols are incomparable
+    for _ in range(ctx.n(60, 900)):
+        sigma = rng.choice(["abc", "xyz"])
+        a = gen.rand_dfa_def(rng, nmax=4, alphabet=sigma, partial=True, density=rng.choice([0.3, 0.5]), p_final=0.6)
+        b = gen.rand_dfa_def(rng, nmax=4, alphabet=sigma, partial=True, density=rng.choice([0.3, 0.5]), p_final=0.6)
+        check_tree(ctx, ("bin", rng.choice(OPS), rng.choice(["method", "operator"]),
+                         dict(retain_names=rng.random() < 0.5, minify=rng.random() < 0.5), ("leaf", a), ("leaf", b)),
+                   "sparse_partial_pair")
     # every option combination on one pair, every operation
     sigma = "ab"
     for _ in range(ctx.n(6, 60)):
